@@ -1323,6 +1323,14 @@ class Exec:  # an execution path
         origin = self.origin() if prank_result.origin is None else prank_result.origin
         return caller, origin
 
+    def forget_stale_aliases(self) -> None:
+        """
+        Drops the aliases that denote accounts which no longer exist, after the code of a failed frame has been rolled back.
+        """
+        self.alias = {
+            k: v for k, v in self.alias.items() if v is None or v in self.code
+        }
+
     def set_code(self, who: Address, code: ByteVec | Contract) -> None:
         """
         Sets the code at a given address.
@@ -2509,6 +2517,7 @@ class SEVM:
                     new_ex.storage = deepcopy(orig_storage)
                     new_ex.transient_storage = deepcopy(orig_transient_storage)
                     new_ex.balance = orig_balance
+                    new_ex.forget_stale_aliases()
 
                 # add to worklist even if it reverted during the external call
                 new_ex.advance()
@@ -2878,6 +2887,7 @@ class SEVM:
                 new_ex.storage = deepcopy(orig_storage)
                 new_ex.transient_storage = deepcopy(orig_transient_storage)
                 new_ex.balance = orig_balance
+                new_ex.forget_stale_aliases()
 
             # add to worklist
             new_ex.advance()
